@@ -192,6 +192,8 @@ func (g *replayGen) compile(c CExpr) goExpr {
 					return goExpr{c.Name, "bool"}
 				case "ptr":
 					return goExpr{c.Name, "ptr"}
+				case "error":
+					return goExpr{c.Name, "err"}
 				case "":
 					return g.fail("package-level %s of unsupported type %s", c.Name, t)
 				}
